@@ -145,17 +145,18 @@ def tab (T : Tabs) (i : Nat) : NTT.Tables := T.getD i default
 def mkTabs (n : Nat) (qs gs : List Nat) : Tabs :=
   List.zipWith (fun q g => NTT.mkTables n q (2 * n) g) qs gs
 
-/-- `DivFloorByLastModulusNTT(p0, buff, p1)` -/
+/-- `DivFloorByLastModulusNTT(p0, buff, p1)`.  The last row goes through the REDUCING `INTT` (repair C02-4 of
+    /repo; the code used `INTTLazy`, whose values in `[1, 2q_ℓ)` for `N < 16` made the quotient off by one). -/
 def divFloorNTT (T : Tabs) (qs : List Nat) (level : Nat) (p0 : Rows) : Rows :=
-  let b0 := NTT.inttStdLazy (tab T level) (row p0 level)
+  let b0 := NTT.inttStd (tab T level) (row p0 level)
   (List.range level).map fun i =>
     let b1 := NTT.nttStdLazy (tab T i) b0
     List.zipWith (divFloorLimb (modulus qs i) (modulus qs level)) (row p0 i) b1
 
-/-- `DivRoundByLastModulusNTT(p0, buff, p1)` (does not modify p0) -/
+/-- `DivRoundByLastModulusNTT(p0, buff, p1)` (does not modify p0; reducing `INTT` of the last row, repair C02-4) -/
 def divRoundNTT (T : Tabs) (qs : List Nat) (level : Nat) (p0 : Rows) : Rows :=
   let ql := modulus qs level
-  let b := (NTT.inttStdLazy (tab T level) (row p0 level)).map (roundLastLimb ql)
+  let b := (NTT.inttStd (tab T level) (row p0 level)).map (roundLastLimb ql)
   (List.range level).map fun i =>
     let qi := modulus qs i
     let c := b.map fun x => addscalarlazyvec_lane x (roundScalar qi ql) 0
@@ -180,5 +181,61 @@ def divRoundManyNTT (T : Tabs) (qs : List Nat) (level nb : Nat) (p0 : Rows) : Op
   else if nb = 1 then some (divRoundNTT T qs level p0)
   else if nb > level then none
   else some (nttRows T (level - nb) (iterRound qs nb level (inttRows T level p0)))
+
+/-! ### the same four functions for either ring type
+
+`Xf` bundles the four `SubRing` transforms of a ring type (standard `Z[X]/(X^N+1)` or conjugate-invariant
+`Z[X+X^-1]/(X^2N+1)`); the `…X` functions are the NTT-domain divisions written once for both.  With `xfStd`
+they ARE the functions above (`divFloorNTTX_std` … by `rfl`); with `xfCI` they are the twin of the same Go code
+running on a `NewRingConjugateInvariant` ring (tied by the `divci` lines of the correspondence). -/
+
+structure Xf where
+  ntt      : NTT.Tables → List Nat → List Nat
+  nttLazy  : NTT.Tables → List Nat → List Nat
+  intt     : NTT.Tables → List Nat → List Nat
+  inttLazy : NTT.Tables → List Nat → List Nat
+
+def xfStd : Xf := ⟨NTT.nttStd, NTT.nttStdLazy, NTT.inttStd, NTT.inttStdLazy⟩
+def xfCI : Xf := ⟨NTT.nttCI, NTT.nttCILazy, NTT.inttCI, NTT.inttCILazy⟩
+
+def mkTabsCI (n : Nat) (qs gs : List Nat) : Tabs :=
+  List.zipWith (fun q g => NTT.mkTables n q (4 * n) g) qs gs
+
+def divFloorNTTX (F : Xf) (T : Tabs) (qs : List Nat) (level : Nat) (p0 : Rows) : Rows :=
+  let b0 := F.intt (tab T level) (row p0 level)
+  (List.range level).map fun i =>
+    let b1 := F.nttLazy (tab T i) b0
+    List.zipWith (divFloorLimb (modulus qs i) (modulus qs level)) (row p0 i) b1
+
+def divRoundNTTX (F : Xf) (T : Tabs) (qs : List Nat) (level : Nat) (p0 : Rows) : Rows :=
+  let ql := modulus qs level
+  let b := (F.intt (tab T level) (row p0 level)).map (roundLastLimb ql)
+  (List.range level).map fun i =>
+    let qi := modulus qs i
+    let c := b.map fun x => addscalarlazyvec_lane x (roundScalar qi ql) 0
+    let d := F.nttLazy (tab T i) c
+    List.zipWith (divFloorLimb qi ql) (row p0 i) d
+
+def inttRowsX (F : Xf) (T : Tabs) (level : Nat) (p : Rows) : Rows :=
+  (List.range (level + 1)).map fun i => F.intt (tab T i) (row p i)
+
+def nttRowsX (F : Xf) (T : Tabs) (level : Nat) (p : Rows) : Rows :=
+  (List.range (level + 1)).map fun i => F.ntt (tab T i) (row p i)
+
+def divFloorManyNTTX (F : Xf) (T : Tabs) (qs : List Nat) (level nb : Nat) (p0 : Rows) : Option Rows :=
+  if nb = 0 then some (p0.take (level + 1))
+  else if nb > level then none
+  else some (nttRowsX F T (level - nb) (iterFloor qs nb level (inttRowsX F T level p0)))
+
+def divRoundManyNTTX (F : Xf) (T : Tabs) (qs : List Nat) (level nb : Nat) (p0 : Rows) : Option Rows :=
+  if nb = 0 then some (p0.take (level + 1))
+  else if nb = 1 then some (divRoundNTTX F T qs level p0)
+  else if nb > level then none
+  else some (nttRowsX F T (level - nb) (iterRound qs nb level (inttRowsX F T level p0)))
+
+theorem divFloorNTTX_std : divFloorNTTX xfStd = divFloorNTT := rfl
+theorem divRoundNTTX_std : divRoundNTTX xfStd = divRoundNTT := rfl
+theorem divFloorManyNTTX_std : divFloorManyNTTX xfStd = divFloorManyNTT := rfl
+theorem divRoundManyNTTX_std : divRoundManyNTTX xfStd = divRoundManyNTT := rfl
 
 end Lattigo.Scaling
